@@ -93,16 +93,17 @@ class pyGSTiCircuitGeneratingVisitor(UsedQubitIndicesVisitor):
             yield Label(("Gidle", lbl, ";", duration))
 
     def visit_Circuit(self, obj, context=None):
-        if len(obj.registers) > 1:
+        registers = obj.fundamental_registers()
+        if len(registers) > 1:
             raise NotImplementedError("Multiple fundamental registers unsupported.")
-        (k,) = obj.registers
+        (register,) = registers
         try:
             self.llbls
         except AttributeError:
             pass
         else:
             raise JaqalError("Cannot reuse pyGSTiGeneratingVisitor")
-        self.llbls = list(range(len(obj.registers[k])))
+        self.llbls = list(range(len(register)))
         op, indices, duration = super().visit_Circuit(obj, context=context)
         return Circuit(() if op is None else (op,), line_labels=self.llbls)
 
